@@ -64,6 +64,10 @@ func genProblem(r *Rng, o ProbOpts) *Problem {
 		c := model.Criterion{Id: id, Type: model.Gain}
 		if !o.AllGain && r.chance(0.35) {
 			c.Type = model.Cost
+		} else if !o.AllGain && r.chance(0.08) {
+			// the type is a free string: only the exact "cost" is a cost criterion, anything else (README: gain is
+			// the default) counts as gain
+			c.Type = model.CriterionType([]string{"", "", "Cost", "loss"}[r.Intn(4)])
 		}
 		if !o.NoRanges && r.chance(0.3) {
 			lo, hi := math.Inf(1), math.Inf(-1)
@@ -81,6 +85,26 @@ func genProblem(r *Rng, o ProbOpts) *Problem {
 	names := make([]string, na)
 	for i, a := range p.Known {
 		names[i] = a.Id
+	}
+	if r.chance(0.3) { // the listing order of the known alternatives is not the id order
+		listed := make([]model.AlternativeWithCriteria, 0, na)
+		for _, id := range r.shuffled(names) {
+			for _, a := range p.Known {
+				if a.Id == id {
+					listed = append(listed, a)
+				}
+			}
+		}
+		p.Known = listed
+	}
+	if r.chance(0.2) && nc >= 2 { // nor is the listing order of the criteria
+		byId := map[string]model.Criterion{}
+		for _, c := range p.Criteria {
+			byId[c.Id] = c
+		}
+		for i, id := range r.shuffled(cids) {
+			p.Criteria[i] = byId[id]
+		}
 	}
 	sh := r.shuffled(names)
 	k := na
@@ -427,6 +451,9 @@ type ReqOpts struct {
 func problemJSON(p *Problem) (crit []interface{}, known []interface{}) {
 	for _, c := range p.Criteria {
 		cj := J{"id": c.Id, "type": string(c.Type)}
+		if c.Type == "" {
+			delete(cj, "type")
+		}
 		if c.ValuesRange != nil {
 			cj["valuesRange"] = J{"min": c.ValuesRange.Min, "max": c.ValuesRange.Max}
 		}
